@@ -62,7 +62,11 @@ def norm(v):
     if k == "obj":
         return ("obj", tuple(sorted((f["name"], norm(f["v"])) for f in v["f"])))
     if k == "float":
+        if v.get("sp") == "nan":
+            return ("float", "NaN")
         return ("float", v.get("q", v.get("x")))
+    if k == "int" and v.get("sp") == "big":
+        return ("int", int(v["s"]))
     if k == "null":
         return ("null",)
     return (k, v.get("v"))
